@@ -33,3 +33,5 @@ import UnicLocale.SrcTie.LangIdClearVariants
 import UnicLocale.SrcTie.LocaleFromParts
 import UnicLocale.SrcTie.LocaleIntoParts
 import UnicLocale.SrcTie.LocaleIsMatch
+import UnicLocale.SrcTie.LangIdFromRawParts
+import UnicLocale.SrcTie.LocaleFromRawParts
